@@ -31,7 +31,7 @@ def rebuild_for_replay(rec):
 
 
 def run(chk):
-    per = chk.pick(600, 2500)            # per shard: 9.6e3 / 4.0e4 trees
+    per = chk.pick(600, 40000)            # per shard: 9.6e3 / 4.0e4 trees
     r = chk.run('asan', build(), per)
     # which maximum nesting depths were actually reached (the harness records vh_mix(0xDEE9, depth) as a coverage hash)
     reached = [d for d in range(256) if (_mix(0xDEE9, d) or 1) in r.cov]
